@@ -86,6 +86,18 @@ pub fn check(c: &Case) -> Result<(), String> {
             return Err("PwHash::hash_with_salt differs from libsodium".into());
         }
         h.verify(&c.password.0).map_err(|_| "PwHash::verify rejected the password that produced the hash")?;
+        // a caller-supplied salt whose length differs from the configured salt_length (which only sizes RANDOM
+        // salts): if the call succeeds, the hash must be the hash under the WHOLE supplied salt
+        if c.salt.len() != 16 {
+            let cfg2 = Config::interactive().with_opslimit(c.ops).with_memlimit(c.mem).with_hash_length(c.outlen);
+            if let Ok(Ok(h2)) = no_panic(|| PwHash::<Vec<u8>, Vec<u8>>::hash_with_salt(&c.password.0, c.salt.0.clone(), cfg2)) {
+                let (hash2, salt2, _) = h2.clone().into_parts();
+                if hash2 != want || salt2 != c.salt.0 {
+                    return Err(format!("PwHash::hash_with_salt with a {}-byte salt and a config whose salt_length is 16 returned a hash that is not the Argon2 hash under the supplied salt (stored salt has {} bytes)", c.salt.len(), salt2.len()));
+                }
+                h2.verify(&c.password.0).map_err(|_| "PwHash::verify rejected the password (salt length differs from the config's)")?;
+            }
+        }
         let mut others: Vec<Vec<u8>> = vec![];
         let mut p2 = c.password.0.clone();
         if !p2.is_empty() {
